@@ -136,8 +136,8 @@ def run_config(cfg, strategy=None, want_choices=False):
             ev(ev='shutdown', m=name)
 
         def stopPollThread(self):
-            ev(ev='stop_poller', m=name)
             Module.stopPollThread(self)
+            ev(ev='stop_poller', m=name)       # logged when the request has been made (the call returned)
 
         def joinPollThread(self, timeout):
             Module.joinPollThread(self, timeout)
